@@ -314,6 +314,18 @@ def analyse(res, asm, r):
             cl = clause_at(fn, org[1])
             if cl and 'id' in cl:
                 oid = cl['id']
+        if oid is None and kind in ('postcondition', 'invariant', 'decreases') and fn:
+            # the clause may sit in a secondary span (primary = the `continue` / `break` / `return` at which it fails)
+            for s2 in [x for x in spans if not x.get('is_primary')]:
+                fname = str(s2.get('file_name', ''))
+                if not (fname.endswith('/%s.rs' % unit) or fname == '%s.rs' % unit):
+                    continue
+                t2, o2 = line_origin(gen, s2['line_start'])
+                if o2[0] == 'tpl' and fn_at(asm, s2['line_start']) is fn:
+                    cl = clause_at(fn, o2[1])
+                    if cl and 'id' in cl:
+                        oid = cl['id']
+                        break
         if kind == 'precondition':
             # name the callee clause if we can
             sec = [s for s in spans if not s.get('is_primary')]
